@@ -1565,24 +1565,31 @@ def corpus_bodies():
 
 # =================================================================== check steps
 def correspondence(ctx):
+    import warnings
+    with warnings.catch_warnings(), np.errstate(all="ignore"):
+        warnings.simplefilter("ignore")       # the malformed stream divides 0/0 on purpose
+        _correspondence(ctx)
+
+
+def _correspondence(ctx):
     cmp = Cmp(ctx, "corr")
     # corpus
     for n in (0, 1, 6, 7, 8):
         corr_halfplanes(ctx, cmp, concurrent_halfplanes(n), "L" if n >= 2 else "M", "corpus:concurrent-%d" % n)
     for case in corpus_pairs():
         corr_pair(ctx, cmp, case, "L")
-    nh = ctx.budget(260, 6000)
+    nh = ctx.budget(260, 3000)
     for k in range(nh):
         stream = "L" if k % 20 < 9 else ("G" if k % 20 < 17 else "M")
         hps, label = gen_halfplanes(ctx.rng, stream)
         corr_halfplanes(ctx, cmp, hps, stream, label)
-    npairs = ctx.budget(320, 8000)
+    npairs = ctx.budget(320, 4000)
     for k in range(npairs):
         u = k % 20
         stream = "L" if u < 8 else ("G" if u < 14 else ("S" if u < 17 else ("N" if u < 19 else "M")))
         corr_pair(ctx, cmp, gen_pair(ctx.rng, stream), stream)
     # tetrahedron pairs met in body contacts (library pinv, mesh elements)
-    nb = ctx.budget(3, 60)
+    nb = ctx.budget(3, 30)
     for k in range(nb):
         s1, s2, sep, label = gen_bodies(ctx.rng, "BL" if k % 2 == 0 else "BG")
         r = run_bodies(s1, s2)
@@ -1612,6 +1619,13 @@ def witness_buffer():
 
 
 def search(ctx):
+    import warnings
+    with warnings.catch_warnings(), np.errstate(all="ignore"):
+        warnings.simplefilter("ignore")
+        _search(ctx)
+
+
+def _search(ctx):
     boost = 3 if ctx.extra.get("search_boost") else 1
     # corpus first
     for case in corpus_pairs():
@@ -1625,12 +1639,12 @@ def search(ctx):
         ctx.fail("intersect_halfplanes:raised", {"kind": "halfplanes", "halfplanes": concurrent_halfplanes(8)},
                  {"err": w}, "points of the (degenerate) polygon", "28 valid intersections > 24 buffer rows",
                  finding=F_BUF)
-    n = ctx.budget(1500, 40000) * boost
+    n = ctx.budget(1500, 15000) * boost
     for k in range(n):
         u = k % 20
         stream = "L" if u < 6 else ("G" if u < 12 else ("S" if u < 17 else "N"))
         check_pair(ctx, gen_pair(ctx.rng, stream), stream)
-    nb = ctx.budget(45, 1500) * boost
+    nb = ctx.budget(45, 400) * boost
     for k in range(nb):
         stream = "BL" if k % 2 == 0 else "BG"
         s1, s2, sep, label = gen_bodies(ctx.rng, stream)
